@@ -765,14 +765,19 @@ class C06Engine(object):
             mixed = index % 16 == 4  # (the other F_CFI variants, index % 16 == 12, set it for the whole library)
             if mixed:
                 # the option given declaration by declaration: both protocols in one library
-                turn = [rng.randrange(2)]
+                # Declarations of the same result shape meet both protocols: alternating within each
+                # shape along the (shuffled) order; which protocol comes first depends on the variant.
+                seen_shape = {}
+                first_cfi = index % 32 == 4
 
                 def with_cfi(b):
-                    # alternating along the (shuffled) order, so that declarations of the same shape
-                    # meet both protocols, in both orders over the variants
-                    turn[0] += 1
-                    if b.startswith(("- decl: class", "- decl: template", "- decl: struct", "- decl: namespace")) \
-                            or turn[0] % 2:
+                    if b.startswith(("- decl: class", "- decl: template", "- decl: struct", "- decl: namespace")):
+                        return b
+                    m = re.match(r"- decl: (.*?)(\w+)\s*\(", b.split("\n", 1)[0])
+                    shape = m.group(1).strip() if m else "?"
+                    k = seen_shape.get(shape, 0)
+                    seen_shape[shape] = k + 1
+                    if (k % 2 == 0) != first_cfi:
                         return b
                     if "\n  options:\n" in b:
                         return b.replace("\n  options:\n", "\n  options:\n    F_CFI: true\n", 1)
